@@ -134,6 +134,21 @@ def to_coq(node):
     raise Unsupported(k)
 
 
+def relax(node):
+    """a superset of the node's language without length counters: every repeat with a bound above 1 becomes
+    unbounded (minimum 0 or 1).  Used as a search hint only; the claim `language(node) inside language(relax(node))`
+    is decided by the Coq checker before it is used."""
+    k = node[0]
+    if k in ("cat", "alt"):
+        return (k, [relax(i) for i in node[1]])
+    if k == "rep":
+        _, a, mn, mx, g = node
+        if mx is None or mx > 1:
+            return ("rep", relax(a), min(mn, 1), None, g)
+        return ("rep", relax(a), mn, mx, g)
+    return node
+
+
 def translate(pattern, flags):
     """returns (coq term, ast node)"""
     t = Tr(pattern, flags)
